@@ -227,7 +227,7 @@ def gensym_xproc(ctx: Ctx) -> None:
         )
 
 
-@rule("CLEANUP-1", props=["C10", "C20"], floor=3)
+@rule("CLEANUP-1", props=["C10", "C20", "C19"], floor=3)
 def cleanup(ctx: Ctx) -> None:
     """the only deletion in library code removes the per-process context directory
     join_path(work_dir, CONTEXT_ID), registered through delete_on_exit"""
@@ -266,6 +266,31 @@ def cleanup(ctx: Ctx) -> None:
                     break
         ctx.ob(d, c, ok, "delete_on_exit is given join_path(<work dir>, CONTEXT_ID) — never the work directory itself", sel="cleanup:arg")
     ctx.need(n >= 1, "delete_on_exit is never called")
+    # where intermediate data goes: the user's explicit store, or the per-process context dir
+    ist = repo.get(f"{A.PLAN}.intermediate_store")
+    ifl, icfg = flow_of(repo, ist), cfg_of(ist)
+    for r in icfg.returns():
+        v = r.stmt.value
+        if v is None:
+            continue
+        txt = unparse(v, 80)
+        explicit = txt.endswith(".intermediate_store")
+        ctxdir = False
+        if isinstance(v, ast.Name):
+            for s_ in ifl.rdefs(v.id, r.id):
+                vv = s_.value
+                ctxdir = isinstance(vv, ast.Call) and attr_chain(vv.func) == "join_path" and any(isinstance(a, ast.Name) and a.id == "CONTEXT_ID" for a in vv.args)
+        elif isinstance(v, ast.Call) and attr_chain(v.func) == "join_path":
+            ctxdir = any(isinstance(a, ast.Name) and a.id == "CONTEXT_ID" for a in v.args)
+        ctx.ob(
+            ist,
+            r.stmt,
+            explicit or ctxdir,
+            f"intermediate_store returns the explicit store or join_path(<work dir>, CONTEXT_ID) (returns `{txt}`)"
+            + ("" if explicit or ctxdir else " — a directory shared between processes and sessions: same-named intermediate arrays of different computations collide, and which data a computation reads depends on how the work directory is configured"),
+            sel=f"cleanup:intermediate:{txt}",
+            props=["C10", "C20", "C19"],
+        )
     m = repo.module(A.PLAN)
     vals = m.assigns.get("CONTEXT_ID", [])
     ok = len(vals) == 1 and any(isinstance(x, ast.Call) and attr_chain(x.func) in ("uuid.uuid4", "uuid.uuid1") for x in ast.walk(vals[0]))
